@@ -129,6 +129,20 @@ def check_case(acc: Acc, case):
                               "result %s != unsplit frame %s" % (out.result.raw_data.hex(), F.hex()), case))
             if len(obs.tx) != 1:
                 fails.append(("C07|%s|retransmitted-despite-remainder" % transport, "%d transmissions" % len(obs.tx), case))
+    # ---- positive, second transmission: the first one only produced a STALE first fragment that arrives after its timeout
+    # (during the second transmission, before that one's own pieces); the second is answered head + exact tail in time ------
+    if len(labelled) >= 2 and len(labelled[0]) == 1 and len(labelled[1]) == 2 and transport != "tcp":
+        st, a, b = labelled[0][0], labelled[1][0], labelled[1][1]
+        if st[2][0] in ("head", "other_head") and MIN_HEADER[transport] <= st[2][1] < len(F) and netcase.TICKS < st[0] < netcase.TICKS + a[0] \
+                and a[2][0] == "head" and b[2] == ["tail", a[2][1]] and MIN_HEADER[transport] <= a[2][1] < len(F) \
+                and a[0] <= b[0] < netcase.TICKS and R >= 1:
+            if out.kind() != "ok":
+                fails.append(("C07|%s|exact-remainder-not-reassembled|after-stale-fragment" % transport,
+                              "transmission 2 answered head(%d)+tail at +%d/+%d ticks after a stale %s(%d) of transmission 1 arrived at +%d: outcome %s, "
+                              "%d transmissions" % (a[2][1], a[0], b[0], st[2][0], st[2][1], st[0], out.kind(), len(obs.tx)), case))
+            elif out.result.raw_data != F or len(obs.tx) != 2:
+                fails.append(("C07|%s|after-stale-fragment|wrong-result" % transport,
+                              "%d transmissions, result %s the frame" % (len(obs.tx), "==" if out.result.raw_data == F else "!="), case))
     # ---- provenance of a successful result ---------------------------------------------------------------------
     if out.kind() == "ok":
         res = out.result.raw_data
@@ -286,6 +300,15 @@ def negative_job(job):
                              "tx": [[[3, ["head", s]], [30, later]], []]})
                 _apply(acc, {"transport": transport, "keep": keep, "T": T, "R": R, "count": count,
                              "tx": [[[3, ["head", s]]], [[d, ["head", s]]], [[d, later]]]})
+    # a stale first fragment of transmission 1 (lost tail) shows up during transmission 2, which is answered in two pieces
+    if transport != "tcp":
+        for s in splits:
+            if s < hdr:
+                continue
+            for stale in (["other_head", s], ["head", s], ["other_head", max(hdr, s - 2)], ["head", min(len(F) - 1, s + 1)]):
+                for (late, d1, d2) in ((17, 3, 5), (19, 4, 4), (17, 2, 15), (20, 6, 9)):
+                    _apply(acc, {"transport": transport, "keep": keep, "T": T, "R": R, "count": count,
+                                 "tx": [[[late, stale]], [[d1, ["head", s]], [d2, ["tail", s]]]]})
     if len(acc.samples) < 1:
         acc.sample({"transport": transport, "keep": keep, "T": T, "R": R, "count": count,
                     "tx": [[[3, ["head", splits[0]]]], [[1, ["tail", splits[0]]]]]})
